@@ -22,6 +22,8 @@ Representable(N, top) ==
         /\ N[x].k = "comm" => NoDoubleDash(N[x].t) /\ (N[x].t = <<>> \/ N[x].t[Len(N[x].t)] # 45)
         /\ N[x].k = "pi" => NoPiEnd(N[x].t) /\ N[x].ns = "" /\ (N[x].d => N[x].t # <<>> /\ N[x].t[1] \notin {32, 9, 10, 13})
         /\ N[x].k = "nsn" => N[x].ln # "xml" /\ N[x].u # XmlNs /\ (N[x].u = "" => N[x].ln = "")
+        \* an xml:id value is normalised by every parse (xml:id 1.0, section 4): only normalised values can be expressed
+        /\ (N[x].k = "attr" /\ N[x].ns = XmlNs /\ N[x].ln = "id") => NormId(N[x].t) = N[x].t
     /\ N[top].k \in {"doc", "elem"}
     /\ N[top].k = "doc" =>      \* a well-formed document
          /\ Len(SelectSeq(NormKids(N, top), LAMBDA y : N[y].k = "elem")) = 1
